@@ -1,4 +1,4 @@
-From Urwid Require Import SelectLoop ZmqLoop.
+From Urwid Require Import SelectLoop ZmqLoop AdapterLoop AdapterCheck.
 From Coq Require Extraction ExtrOcamlBasic.
 Extraction Language OCaml.
 Extraction "model.ml" run_case.
